@@ -112,7 +112,10 @@ CLAIMED = {
         "design": "DESIGN.md §7 C10",
     },
     "C11": {
-        "text": "PARTIAL by nature. Rocq theorems: C11_parsed_units_validated and C11_merged_units_validated (every unit the parser returns, and every merge of such units, holds only values that passed "
+        "text": "Rocq theorems on the model, whose converters have an explicit Panic outcome at every input-dependent unwrap/expect/index site: C11_run_never_panics (for arbitrary file contents and "
+                "ordinary paths -- no NUL, a file name -- the whole run: load, name table, all seven converters, never reaches a Panic outcome), C11_convert_never_panics, C11_load_never_panics, "
+                "C11_stored_values_readable (whatever add()/set() store for a value without NUL reads back, so no look-up of the generator's own entries panics). PARTIAL by nature beyond the model. "
+                "Also: C11_parsed_units_validated and C11_merged_units_validated (every unit the parser returns, and every merge of such units, holds only values that passed "
                 "load-time validation -- an invariant over the one-character-per-step parser machine), C11_lookups_do_not_panic (on such units no look-up reaches unquote().expect()), "
                 "C11_values_have_no_nul, C11_total_functions (the parser is a structurally recursive function: a result for every text, no fuel), C11_pinned_refuted. Every other panic-capable site "
                 "(63 sites) is listed with its status in tools/panic_sites.json and re-scanned on every run; the model carries explicit Panic outcomes whose occurrences are compared with the implementation's "
